@@ -1232,6 +1232,81 @@ def _probe_namespace():
     return None
 
 
+KEY_TYPED_KEY = "non-string-cache-key"
+KEY_BEAKER_DIRS = "beaker-section-dir"
+
+
+def _probe_typed_key():
+    """cache_key="${uid}" evaluates to whatever the expression gives (an int here); cache.invalidate / get / set called with
+    that value address the same entry.  Expectations by construction."""
+    core.setup_repo()
+    _register()
+    from mako.template import Template
+
+    src = '<%def name="row(uid)" cached="True" cache_key="${uid}"><% tick("row") %>row ${uid}</%def>${row(u)}'
+    t = Template(src, uri="/vf17k_%d_%d.html" % (os.getpid(), next(_uniq)), cache_impl="vf17rec")
+    t._vf_store, t._vf_log = {}, []
+    ticks = []
+    case = {"probe": KEY_TYPED_KEY, "template": src}
+    render = lambda u: t.render_unicode(u=u, tick=ticks.append)
+    steps = [
+        ("render(u=7)", lambda: render(7), "row 7", 1), ("render(u=7) again", lambda: render(7), "row 7", 0),
+        ("cache.get(7)", lambda: t.cache.get(7, __M_defname="row"), "row 7", 0),
+        ("cache.invalidate(7); render(u=7)", lambda: (t.cache.invalidate(7, __M_defname="row"), render(7))[1], "row 7", 1),
+        ("cache.set(8, 'preset'); render(u=8)", lambda: (t.cache.set(8, "preset", __M_defname="row"), render(8))[1], "preset", 0),
+        ("render(u='7') (another key)", lambda: render("7"), "row 7", 1),
+    ]
+    done = []
+    for what, fn, exp, nticks in steps:
+        del ticks[:]
+        done.append(what)
+        try:
+            out = fn()
+        except Exception as e:  # noqa: BLE001
+            return Failure(case, "after %r: raised %s: %s" % (done, type(e).__name__, e), KEY_TYPED_KEY + ":raised")
+        if out != exp or len(ticks) != nticks:
+            return Failure(case, "after %r: expected %r with %d body execution(s), observed %r with %d (%s)" % (done, exp, nticks, out, len(ticks), src),
+                           KEY_TYPED_KEY)
+    return None
+
+
+def _probe_beaker_dirs():
+    """Beaker file backend, template with a module directory: the cache_dir of a section is the directory its entries live in
+    (two sections with different directories and one cache_key do not share an entry)."""
+    core.setup_repo()
+    try:
+        import beaker  # noqa: F401
+    except ImportError:
+        return None
+    from mako.template import Template
+
+    with core.TempDir() as tmp:
+        d1, d2, md = (os.path.join(tmp, n) for n in ("d1", "d2", "mod"))
+        fn = os.path.join(tmp, "page.html")
+        src = ('<%%def name="one()" cached="True" cache_type="file" cache_dir="%s" cache_key="fragment"><%% tick("one") %%>one</%%def>'
+               '<%%def name="two()" cached="True" cache_type="file" cache_dir="%s" cache_key="fragment"><%% tick("two") %%>two</%%def>${one()}|${two()}' % (d1, d2))
+        with open(fn, "w") as fh:
+            fh.write(src)
+        t = Template(filename=fn, module_directory=md, uri="/vf17bd_%d_%d.html" % (os.getpid(), next(_uniq)))
+        ticks = []
+        case = {"probe": KEY_BEAKER_DIRS, "template": src}
+        outs = []
+        for _ in range(2):
+            try:
+                outs.append(t.render_unicode(tick=ticks.append))
+            except Exception as e:  # noqa: BLE001
+                return Failure(case, "render raised %s: %s" % (type(e).__name__, e), KEY_BEAKER_DIRS + ":raised")
+        if outs != ["one|two", "one|two"] or ticks != ["one", "two"]:
+            return Failure(case, "two renders: expected ['one|two', 'one|two'] with bodies ['one', 'two'] executed, observed %r with %r (%s)"
+                           % (outs, ticks, src), KEY_BEAKER_DIRS)
+        has = [any(fs for _, _, fs in os.walk(d)) if os.path.isdir(d) else False for d in (d1, d2)]
+        stray = [p for p, _, fs in os.walk(md) for f in fs if not f.endswith((".py", ".pyc"))]
+        if has != [True, True] or stray:
+            return Failure(case, "cache files below the two cache_dir directories: %r; files that are not modules below module_directory: %r" % (has, stray[:3]),
+                           KEY_BEAKER_DIRS)
+    return None
+
+
 def run_probe(name, case=None):
     """-> Failure | None.  A probe fails with its own key only if its control history passes."""
     if name == KEY_NESTED_BUF:
@@ -1240,6 +1315,10 @@ def run_probe(name, case=None):
         return _probe_inherited()
     if name == KEY_NAMESPACE:
         return _probe_namespace()
+    if name == KEY_TYPED_KEY:
+        return _probe_typed_key()
+    if name == KEY_BEAKER_DIRS:
+        return _probe_beaker_dirs()
     pc, ctl = _probe_cases()[name]
     case = case or dict(pc, probe=name)
     body = {k: v for k, v in case.items() if k != "probe"}
@@ -1364,7 +1443,7 @@ def shard_search(task):
     return ev, fails
 
 
-PROBES = (KEY_COLLISION, KEY_BEAKER_SET, KEY_EARLY_INV, KEY_NESTED_BUF, KEY_INHERITED, KEY_NAMESPACE)
+PROBES = (KEY_COLLISION, KEY_BEAKER_SET, KEY_EARLY_INV, KEY_NESTED_BUF, KEY_INHERITED, KEY_NAMESPACE, KEY_TYPED_KEY, KEY_BEAKER_DIRS)
 
 
 def run(ctx):
